@@ -33,7 +33,7 @@ HEAD = "include main.journal\n\n"
 
 
 def cfg(maxtx=2, shape=0):
-    return ("CONSTANTS MaxTx = %d Shape = %d Extra = FALSE\nINIT Init\nNEXT Next\nINVARIANTS CTheorems CEmit\nCHECK_DEADLOCK FALSE\n" % (maxtx, shape))
+    return ("CONSTANTS MaxTx = %d Shape = %d Extra = FALSE Prices = FALSE\nINIT Init\nNEXT Next\nINVARIANTS CTheorems CEmit\nCHECK_DEADLOCK FALSE\n" % (maxtx, shape))
 
 
 def lone_surrogate(s):
